@@ -460,11 +460,11 @@ func runDelReqAuth(c *core.Ctx) {
 	var bad []string
 	n := 0
 	for _, f := range an.WithAnon(delRef) {
-		for _, call := range callsTo(f, a.del) {
+		for _, o := range occCallsTo(f, a.del, a.stop) {
 			n++
-			kp := an.PathOf(call.Call.Args[1])
+			kp := occArg(o, 1)
 			if !strings.Contains(kp, "Pubkey="+req+"}") && !strings.HasSuffix(kp, "Pubkey="+req) {
-				bad = append(bad, fmt.Sprintf("%s at %s", clip(kp, 90), P.Pos(call.Pos())))
+				bad = append(bad, fmt.Sprintf("%s at %s", clip(kp, 90), P.Pos(o.Site().Pos())))
 			}
 		}
 	}
